@@ -63,6 +63,9 @@ def Dec.geInt (d : Dec) (n : Int) : Bool := decide (d.num ≥ n * (10 ^ d.exp : 
 
 def Dec.isZero (d : Dec) : Bool := d.mant == 0
 
+/-- no fractional part (`v == math.Trunc(v)`) -/
+def Dec.isWhole (d : Dec) : Bool := d.mant % 10 ^ d.exp == 0
+
 /-- truncation toward zero (Go's `int64(f)`) -/
 def Dec.trunc (d : Dec) : Int :=
   let q : Int := (d.mant / 10 ^ d.exp : Nat)
@@ -199,15 +202,18 @@ structure Flags where
   zeroFields : Bool
   /-- placeholders are resolved before the type hooks (duration …) see the string -/
   resolveFirst : Bool
+  /-- `WholeNumberHook` is in the chain: a number with a fractional part given for an integer / duration field is an
+  error (mapstructure alone truncates it) -/
+  wholeNumbers : Bool
   deriving DecidableEq, Repr
 
 /-- the flags of the repository (Bridge/Config.lean proves they are what the source says) -/
-def repoFlags : Flags := ⟨true, false, true⟩
+def repoFlags : Flags := ⟨true, false, true, true⟩
 
-/-- process environment and property files (entries `key=value` in file order) -/
+/-- process environment and property files (the LINES of every file, in file order) -/
 structure Env where
   vars : List (Str × Str)
-  files : List (Str × List (Str × Str))
+  files : List (Str × List Str)
 
 def assoc (l : List (Str × α)) (k : Str) : Option α :=
   match l with
@@ -220,6 +226,23 @@ def cutHash : Str → Str → Option (Str × Str)
   | [], _ => none
   | c :: cs, acc => if c == '#' then some (acc.reverse, cs) else cutHash cs (c :: acc)
 
+def cutEq : Str → Str → Option (Str × Str)
+  | [], _ => none
+  | c :: cs, acc => if c == '=' then some (acc.reverse, cs) else cutEq cs (c :: acc)
+
+/-- `strings.Contains(line, "=")` + `strings.SplitN(line, "=", 2)`: the text before and after the FIRST `=`;
+a line without `=` is no entry -/
+def lineKV (line : Str) : Option (Str × Str) := cutEq line []
+
+/-- the scanner loop of `propertyTokenResolver`: the first line whose text before the first `=` IS the key
+(`kv[0] == property`: no trimming, no prefix / case-insensitive match) yields the text after that `=` -/
+def findProp : List Str → Str → Option Str
+  | [], _ => none
+  | l :: r, key =>
+    match lineKV l with
+    | some (k, v) => if k == key then some v else findProp r key
+    | none => findProp r key
+
 /-- `propertyTokenResolver`: `file#key`; no `#`, unreadable file, missing key are errors -/
 def lookupProp (env : Env) (arg : Str) : Option Str :=
   match cutHash arg [] with
@@ -227,7 +250,7 @@ def lookupProp (env : Env) (arg : Str) : Option Str :=
   | some (file, key) =>
     match assoc env.files file with
     | none => none
-    | some entries => assoc entries key
+    | some lines => findProp lines key
 
 /-! ## placeholders (`findTags`, `ResolveCustomTags`) -/
 
@@ -522,7 +545,19 @@ def decodeKind (k : Kind) (cur : DVal) (v : Val) : R :=
   | .float _, .float d => { val := .float d }
   | _, _ => R.fail cur .type
 
-/-- `VariableInjectHook` at a scalar target, then the duration hook, then the kind switch.
+/-- a number with a fractional part -/
+def fractional : Val → Bool
+  | .float d => !d.isWhole
+  | _ => false
+
+/-- the kinds `WholeNumberHook` guards (time.Duration is an int64) -/
+def intKind : Kind → Bool
+  | .int _ => true
+  | .uint _ => true
+  | .dur => true
+  | _ => false
+
+/-- `VariableInjectHook` at a scalar target, then `WholeNumberHook`, the duration hook, then the kind switch.
 `cast` selects the cast in use (repaired / pre-repair). -/
 def decodeScalarWith (cast : Kind → Str → Option Val) (fl : Flags) (env : Env) (k : Kind) (cur : DVal) (v : Val) : R :=
   match v with
@@ -553,7 +588,9 @@ def decodeScalarWith (cast : Kind → Str → Option Val) (fl : Flags) (env : En
         | none => R.fail cur .parse
       else decodeKind k cur (.str t)
     | .ok w => decodeKind k cur w
-  | w => decodeKind k cur w
+  | w =>
+    if fl.wholeNumbers && intKind k && fractional w then R.fail cur .type
+    else decodeKind k cur w
 
 def decodeScalar := decodeScalarWith castTo
 
